@@ -59,7 +59,9 @@ META = dict(
          "finding). Still partial: noEmptyPlaceholder of the resolved trees also forbids rawNone, which on a filled "
          "heap can only come from resolve's fuel |heap|+1 running out or a dangling reference - no_dangling_reference (FULL strength: all "
          "grammars, options, roots, fuels) proves that every reference in a partial and every kept diagram content "
-         "points into the heap, so only the fuel bound (acyclicity of the partial heap) is not proved. "
+         "points into the heap, so only the fuel bound (acyclicity of the partial heap) is not proved; "
+         "no_empty_placeholder_of_acyclic_partial derives the tree-level clause noEmptyPlaceholder from exactly that "
+         "missing fact, stated as a decidable check (heapAcyclicB) of the final converter state. "
          "tokens_covered and the tree-level no_empty_placeholder are NOT proved in "
          "general: they are decided by the oracle on the real code over generated grammars and by the "
          "model-vs-code correspondence.",
@@ -93,6 +95,7 @@ THEOREMS = [
     "PP.Diagram.no_empty_placeholder_output_partial",
     "PP.Diagram.no_empty_placeholder_tree_partial",
     "PP.Diagram.no_dangling_reference",
+    "PP.Diagram.no_empty_placeholder_of_acyclic_partial",
     "PP.Diagram.conv_HS",
     "PP.Diagram.conv_KD",
     "PP.Diagram.conv_step",
